@@ -78,8 +78,26 @@ JudgeMsgPair(e) ==
 JudgeHistory(e) ==
   Tag(e.before /\ e.after /\ e.sigSame, "Inv.VerdictIndependentOfHistory:" \o e.kind)
 
+(* malformed key x degenerate signature, through every parsing entry point: the verdict is what a
+   caller that honours the entry point's error return obtains *)
+JudgeKeySig(e) ==
+  LET kc == e.case IN
+  IF ~e.applicable \/ ~KeySigJudged(kc) THEN <<>>
+  ELSE Tag(ExpectedKeySig(kc) => e.verdict, "Inv.Complete:key/" \o kc.keyEntry \o "/" \o kc.sigEntry) \o
+       Tag(e.verdict => ExpectedKeySig(kc),
+           "Inv.Sound:key/" \o kc.keyEntry \o "/" \o kc.keyClass \o "x" \o kc.sigClass)
+
+(* goroutines signing and verifying different (key, message) pairs at the same time obtain what
+   they obtain alone *)
+JudgeConcurrent(e) ==
+  Tag(e.sigMismatches = 0, "Inv.SignDeterministic:concurrent/" \o e.size) \o
+  Tag(e.verifyFailures = 0, "Inv.Complete:concurrent/" \o e.size) \o
+  Tag(e.falseAccepts = 0, "Inv.Sound:concurrent/" \o e.size)
+
 Judge(e) ==
   CASE e.event = "Verify"    -> JudgeVerify(e)
+    [] e.event = "KeySig"    -> JudgeKeySig(e)
+    [] e.event = "Concurrent" -> JudgeConcurrent(e)
     [] e.event = "MsgPair"   -> JudgeMsgPair(e)
     [] e.event = "History"   -> JudgeHistory(e)
     [] e.event = "RoundTrip" -> JudgeRoundTrip(e)
